@@ -59,6 +59,20 @@ Proof.
   vm_compute in H1. destruct H1 as [H1|[H1|H1]]; discriminate.
 Qed.
 
+(* mutations of the operator table: flagging + or - commutative breaks the law as well
+   ("a" + x) + "b" at x = "c": "acb" vs "abc";   (x - 1) - 2 at x = 0: -3 vs 0 - (1 - 2) = 1 *)
+Theorem regroup_unsound_for_add_refuted : ~ regroup_law op_add.
+Proof.
+  intros H. destruct (H (VStr [97%N]) (VStr [98%N]) (VStr [97; 98]%N) (VStr [99%N]) eq_refl) as [H1 _].
+  vm_compute in H1. destruct H1 as [H1|[H1|H1]]; discriminate.
+Qed.
+
+Theorem regroup_unsound_for_sub_refuted : ~ regroup_law op_sub.
+Proof.
+  intros H. destruct (H (VInt 1) (VInt 2) (VInt (-1)) (VInt 0) eq_refl) as [_ H2].
+  vm_compute in H2. destruct H2 as [H2|[H2|H2]]; discriminate.
+Qed.
+
 Theorem regroup_ok_pinned_refuted : ~ regroup_ok pinned_flags.
 Proof.
   intros H. destruct (H op_eq true eq_refl) as [_ L]. exact (regroup_unsound_for_eq_refuted L).
